@@ -32,9 +32,10 @@ def candidates(main):
         if isinstance(n, dict):
             if "k" in n:
                 k = n["k"]
-                if k in VALUE_KINDS and not (k == "var" and role == "f") and not (k == "ctor" and not n.get("args")) \
-                        and not (k == "if"):
+                if k in VALUE_KINDS and not (k == "var" and role == "f") and not (k == "ctor" and not n.get("args")):
                     out.append(n)
+                elif k == "if" and not n.get("inline") and role in ("main", "t", "f", "b"):
+                    out.append(n)           # an if statement: its value is Unit without else, the branch's value with
                 for key, v in n.items():
                     visit(v, n, key)
             else:
@@ -69,7 +70,7 @@ def has_toplevel_return(main):
 def probe_offset(t):
     """An offset whose innermost expression is the rendered node t."""
     k = t["k"]
-    if k in ("int", "str", "bool", "var", "list", "tuple", "paren"):
+    if k in ("int", "str", "bool", "var", "list", "tuple", "paren", "if"):
         return t["start"]
     if k == "bin":
         return t["l"]["end"] + 1          # the operator
